@@ -559,11 +559,25 @@ def run(ctx):
 
     # =============================================================== C02.e
     ga = vm.func("_generate_attribute")
-    fors = [n for n in ast.walk(ga) if isinstance(n, ast.For)]
-    ok = len(fors) == 1 and isinstance(fors[0].iter, ast.Call) and norm(fors[0].iter.func) == "sorted" and \
-        norm(fors[0].iter.args[0]) == "attr"
-    ctx.ob("C02.e", VER, "_generate_attribute", "iterates sorted(attr)", ok,
-           "" if ok else f"attribute set iterated as `{norm(fors[0].iter) if fors else '?'}`: order depends on string hashing", ga)
+    # ... and the order it prints does not depend on the order the set hands its elements out (hash randomisation of str): the
+    # function interpreted on every permutation of an attribute set with two translated names and one platform tuple
+    import itertools
+    from .. import pyconst as _pc
+    elems = ["async_reg", "mr_ff", ("keep", "true"), "no_retiming"]
+    tr = {"async_reg": ("async_reg", "true"), "mr_ff": ("mr_ff", "true"), "no_retiming": ("syn_no_retiming", "true")}
+    texts, err = set(), None
+    for perm in itertools.permutations(elems):
+        try:
+            kind, val = _pc.call(ga, {"attr": list(perm), "attr_translate": dict(tr)})
+        except Exception as ex:     # noqa
+            err = f"{type(ex).__name__}: {ex}"
+            break
+        texts.add(val if kind == "return" else f"<{kind}>")
+    ctx.need(err is None, f"_generate_attribute cannot be interpreted ({err})")
+    ok = len(texts) == 1
+    ctx.ob("C02.e", VER, "_generate_attribute", "printed attribute list independent of the set's iteration order (24 permutations)", ok,
+           "" if ok else f"{len(texts)} different texts for one attribute set, e.g. {sorted(texts)[:2]}: the netlist differs between runs "
+                         f"(PYTHONHASHSEED)", ga)
     gsp = vm.func("_generate_specials")
     fors = [n for n in ast.walk(gsp) if isinstance(n, ast.For)]
     ok = len(fors) == 1 and isinstance(fors[0].iter, ast.Call) and norm(fors[0].iter.func) == "sorted" and \
